@@ -38,6 +38,10 @@ MT_LIMIT = {"emptyloop": 3000, "sleeping": 4000, "longline": 4000}
 # the same long loop inside a called block, under a leave scope issued from the top level
 MT_SCRIPTS["longscope"] = ('call {for "_i" from 0 to 3000000 do {a = _i}; b = 1}; c = 2;', 3, 0)
 MT_LIMIT["longscope"] = 4000
+# after the two threads are done the embedder loads the script again and single-steps it
+MT_SCRIPTS["sliced-then-steps"] = (MT_SCRIPTS["long"][0], 6, 0)
+MT_SLICE["sliced-then-steps"] = 6
+MT_POST = {"sliced-then-steps": ["load", "assembly_step", "assembly_step", "assembly_step"]}
 MT_EXEC = {"longline": [["line_step"]], "longscope": [["leave_scope"], ["line_step", "leave_scope"]]}       # executor call lists of a script (default: start, start+start)
 MT_LAG_MS = 1500       # an executor that is still running this long after the request flag was written did not take it up
 
@@ -49,7 +53,8 @@ def mc_cfg(name, ideal, err, calls_e="any", calls_c="any", observed=None, work=3
         return "<<>>" if x == "any" else "<<" + ", ".join('"%s"' % a for a in x) + ">>"
     recs = []
     for o in observed or []:
-        recs.append('[e |-> %s, c |-> %s, state |-> "%s", loaded |-> %s, after |-> %d, overlap |-> %d]' % (tl(o["e"]), tl(o["c"]), o["state"], "TRUE" if o["loaded"] else "FALSE", o.get("after", 0), o.get("overlap", 0)))
+        recs.append('[e |-> %s, c |-> %s, state |-> "%s", loaded |-> %s, after |-> %d, overlap |-> %d, poststeps |-> %d, postexec |-> %d]'
+                    % (tl(o["e"]), tl(o["c"]), o["state"], "TRUE" if o["loaded"] else "FALSE", o.get("after", 0), o.get("overlap", 0), o.get("poststeps", 0), o.get("postexec", 0)))
     mod = "gen_%s" % name
     with open(os.path.join(vlib.SPEC, mod + ".tla"), "w") as f:
         f.write("---- MODULE %s ----\nEXTENDS Control_MC\nDefE == %s\nDefC == %s\nDefObs == {%s}\n====\n" % (mod, tl(calls_e), tl(calls_c), ", ".join(recs)))
@@ -176,7 +181,7 @@ def run(rep, tier, seed, replay):
                     for s in sorted(scheds):
                         n += 1
                         mt_cases.append({"id": "m%d" % n, "script": sname, "text": text, "work": work, "err": err, "E": ce, "C": cc, "schedule": list(s)})
-    mev = vlib.run_driver("ctlmt", [dict({k: c[k] for k in ("id", "text", "E", "C", "schedule")}, limit_ms=MT_LIMIT.get(c["script"], 0), slice=MT_SLICE.get(c["script"], 0)) for c in mt_cases], wdir, kind="rel", timeout_s=10, tag="mt")
+    mev = vlib.run_driver("ctlmt", [dict({k: c[k] for k in ("id", "text", "E", "C", "schedule")}, limit_ms=MT_LIMIT.get(c["script"], 0), slice=MT_SLICE.get(c["script"], 0), **({"post": MT_POST[c["script"]]} if c["script"] in MT_POST else {})) for c in mt_cases], wdir, kind="rel", timeout_s=10, tag="mt")
     mby = vlib.events_by_case(mev)
     # outcome per case, grouped per configuration
     configs = {}
@@ -194,6 +199,9 @@ def run(rep, tier, seed, replay):
                # a thread became executor while the other one was parked inside its own executor section (lockstep schedules: the
                # other thread had not finished what it does as executor)
                "overlap": min(1, fin.get("overlap", 0)),
+               # the embedder's post phase (script loaded again, single steps): steps issued / instructions they executed
+               # (a step that did not return ok counts as having executed nothing)
+               "poststeps": fin.get("post_steps", 0), "postexec": 0 if fin.get("post_bad_res") else fin.get("post_exec", 0),
                # instructions completed after the first acknowledged stop/abort returned (capped: the bound is what matters)
                # (a run that only the time limit ended although a stop/abort was acknowledged counts as "kept executing")
                # (a loop without instructions never advances the instruction count: there the time the executor went on
@@ -212,7 +220,7 @@ def run(rep, tier, seed, replay):
         observed = [json.loads(o) for o in outs]
         r = mc("ctl_obs", True, err, list(ce), list(cc), observed, work, collect=True)
         rep.add_tlc(r, None)
-        if r.error and "NOTEFFECTIVE" not in r.out and "KEEPSEXECUTING" not in r.out and "NOTALLOWED" not in r.out and "TWOEXECUTORS" not in r.out and "HALTEDBUTEMPTY" not in r.out and not r.ok:
+        if r.error and "NOTEFFECTIVE" not in r.out and "KEEPSEXECUTING" not in r.out and "NOTALLOWED" not in r.out and "TWOEXECUTORS" not in r.out and "HALTEDBUTEMPTY" not in r.out and "STEPISNOTONE" not in r.out and not r.ok:
             raise vlib.MachineryError("outcome validation failed without verdict: %s" % (r.error or r.out[-1500:]))
         ndrift = r.out.count("NOTALLOWED")
         if ndrift:
@@ -223,6 +231,12 @@ def run(rep, tier, seed, replay):
             key = "C19/OneExecutor/%s" % sname
             rep.finding(key, "OneExecutor: executor %s, controller %s, script %s under schedule %s: a call was admitted as executor while the other thread was still inside its own executor section (returns E=%s C=%s)"
                         % (list(ce), list(cc), sname, "".join(c0["schedule"]), o["e"], o["c"]), {"property": "C19", "kind": "mt", "key": key, "case": c0, "outcome": o})
+        if "STEPISNOTONE" in r.out:
+            o = next(x for x in observed if x["postexec"] != x["poststeps"])
+            c0 = outs[json.dumps(o, sort_keys=True)][0]
+            key = "C19/StepIsOne/after-%s" % ("+".join(a for a, r_ in zip(cc, o["c"]) if r_ == "ok") or "run")
+            rep.finding(key, "StepIsOne: executor %s, controller %s, script %s under schedule %s, then the script loaded again and %d assembly steps: they executed %d instructions"
+                        % (list(ce), list(cc), sname, "".join(c0["schedule"]), o["poststeps"], o["postexec"]), {"property": "C19", "kind": "mt", "key": key, "case": c0, "outcome": o})
         if "HALTEDBUTEMPTY" in r.out:
             o = next(x for x in observed if x["state"] == "halted" and not x["loaded"])
             c0 = outs[json.dumps(o, sort_keys=True)][0]
